@@ -73,8 +73,10 @@ void setStr(strvector *s, size_t i, char *str)
 {
   /*memcpy(s->data[i], str, strlen(str)+1);*/
   //   strcpy(s->data[i], str);
+  /* copy first: str may be the string stored in this very cell (setStr(s, i, getStr(s, i))) */
+  char *copy = strdup(str);
   xfree(s->data[i]);
-  s->data[i] = strdup(str);
+  s->data[i] = copy;
 }
 
 char* getStr(strvector *s, size_t i)
@@ -87,6 +89,9 @@ void StrVectorAppend(strvector *s, char *str)
   size_t i;
   size_t size = s->size+1;
   strvector *tmp;
+  /* str may be one of the strings of s (StrVectorAppend(s, getStr(s, k))): the cells of s are released and
+   * rewritten below, so keep a private copy of the new string */
+  char *own = strdup(str);
   NewStrVector(&tmp, s->size);
 
   for(i = 0; i < s->size; i++){
@@ -101,7 +106,8 @@ void StrVectorAppend(strvector *s, char *str)
     setStr(s, i, getStr(tmp, i));
   }
 
-  setStr(s, s->size-1, str);
+  setStr(s, s->size-1, own);
+  xfree(own);
 
   DelStrVector(&tmp);
 }
